@@ -3,6 +3,7 @@ package checks
 import (
 	"fmt"
 	"math/rand"
+	"path/filepath"
 	"strings"
 
 	"verif/harness/core"
@@ -212,4 +213,83 @@ func nestedLogShape(r *rand.Rand, w *World) []string {
 			return a
 		}
 	}
+}
+
+// parallelReports: several reports produced side by side in one process - a caller that serves requests in
+// goroutines. The program is built with the race detector for this part (check.sh, VERIF_HR_RACE) and the jobs
+// of a group are lined up at their first file read (hook: parallel fault jobs), so from there on parsing,
+// resolving, accumulating and rendering of different, unrelated inputs really overlap. Two monitors: every
+// report equals the one the same job gives alone, and the race detector's log stays empty for the repository's
+// packages (reports are de-duplicated by their outermost frames).
+func parallelReports(c *core.Ctx, n int, shapes func(r *rand.Rand, w *World) []string) {
+	if c.HRRace == "" {
+		c.Inconclusive("parallel-reports", "the race-detector build of the program is not available")
+		return
+	}
+	layouts := []string{"2006/01/02", "02.01.2006", "2006-01-02"}
+	nsrv := min(4, c.Procs)
+	var srvs []*run.Server
+	for k := 0; k < nsrv; k++ {
+		s, err := run.NewServer(c.HRRace, filepath.Join(c.Work, fmt.Sprintf("parallel-srv%d", k)))
+		if err != nil {
+			c.HarnessError("cannot start the race-detector build of the job server: " + err.Error())
+			return
+		}
+		s.ExtraEnv = []string{"GORACE=halt_on_error=0 exitcode=0 log_path=" + filepath.Join(c.Work, "race")}
+		srvs = append(srvs, s)
+		defer s.Close()
+	}
+	core.ParallelFor(n, nsrv, func(wk, i int) {
+		srv := srvs[wk]
+		r := c.Rng("parallel", i)
+		group := 3 + r.Intn(4)
+		files := map[string]string{}
+		var jobs []run.FaultJob
+		for k := 0; k < group; k++ {
+			// long enough for the reports to overlap: worlds of up to 30 days, repeated
+			w := newWorld(r, worldOpts{Exact: i%2 == 0, MinDays: 4, MaxDays: 8, Notes: true, NoBig: true, Layout: layouts[r.Intn(len(layouts))]})
+			sfx := fmt.Sprint(k)
+			logText := strings.Repeat(w.LogText, 6)
+			files["food"+sfx+".yaml"], files["log"+sfx+".yaml"] = w.BookText, logText
+			a := []string{"-d", "food" + sfx + ".yaml", "-l", "log" + sfx + ".yaml", "--date-format", w.Layout, "--no-color"}
+			jobs = append(jobs, run.FaultJob{Args: append(a, shapes(r, w)...), SinkLimit: -1})
+		}
+		srv.Write(files)
+		var solo []run.FaultRes
+		for _, j := range jobs {
+			solo = append(solo, srv.Fault(j, nil))
+		}
+		both := srv.Fault(run.FaultJob{Parallel: jobs}, nil)
+		c.Eval(len(jobs) + 1)
+		if both.Died != "" || len(both.Parallel) != len(jobs) {
+			c.Violation("parallel|crash", fmt.Sprintf("the process running %d reports side by side died or answered short: %s", len(jobs), clip(both.Died, 400)), caseDoc{Files: files, Extra: map[string]any{"jobs": jobs}})
+			return
+		}
+		c.Count("groups_of_reports_side_by_side", 1)
+		c.Count("reports_run_side_by_side", len(jobs))
+		for k := range jobs {
+			if len(solo[k].Out) > 0 {
+				c.Nontrivial("parallel", joinArgs(jobs[k].Args), files[fmt.Sprintf("log%d.yaml", k)])
+			}
+			got := both.Parallel[k]
+			if got.Panic != "" {
+				c.Violation(shapeName(jobs[k].Args)+"|crash-side-by-side", clip(got.Panic, 400), caseDoc{Files: files, Args: jobs[k].Args, Extra: map[string]any{"jobs": jobs}})
+				continue
+			}
+			if got.Out != solo[k].Out || got.Exit != solo[k].Exit {
+				c.Violation(shapeName(jobs[k].Args)+"|differs-side-by-side", fmt.Sprintf("%s: exit %d, %d bytes alone; exit %d, %d bytes when %d other reports on unrelated inputs run in the same process at the same time", joinArgs(jobs[k].Args), solo[k].Exit, len(solo[k].Out), got.Exit, len(got.Out), len(jobs)-1),
+					caseDoc{Files: files, Args: jobs[k].Args, Expected: map[string]any{"exit": solo[k].Exit, "out": clip(solo[k].Out, 3000)}, Observed: map[string]any{"exit": got.Exit, "out": clip(got.Out, 3000), "err": got.Err}, Extra: map[string]any{"jobs": jobs}})
+			}
+		}
+	})
+	for _, s := range srvs {
+		c.Count("l2_race_build_jobs", s.Jobs)
+		c.Count("l2_race_build_process_deaths", s.Deaths)
+	}
+	raceLogs(c, "reports run side by side in one process (race-detector build of the program)")
+}
+
+// nestedCsvShape: the three exports.
+func nestedCsvShape(r *rand.Rand, w *World) []string {
+	return [][]string{{"csv", "log"}, {"csv", "database"}, {"csv", "database-resolved"}}[r.Intn(3)]
 }
